@@ -528,6 +528,17 @@ def _job(job):
     return out
 
 
+def _tjob(job):
+    fld, j, quick = job
+    fn, nv = (table_case, 3) if fld == "tb" else (logged_case, 16)
+    hk = zlib.crc32(json.dumps(j[fld], sort_keys=True).encode())
+    vs = (hk % nv, (hk // nv + 1 + hk % nv) % nv) if quick else (range(nv) if fld == "tb" else [(hk + 5 * i) % nv for i in range(6)])
+    for v in vs:
+        bad = fn(j, v)
+        if bad: return bad
+    return None
+
+
 def plan(ctx):
     """(name, cfg substitutions, simulate, minimum number of cases)"""
     PAT = {'LenMode = "all"': 'LenMode = "pat"'}
@@ -567,25 +578,25 @@ def plan(ctx):
         ]
     return [
         ("table", {'XMode = "hist"': 'XMode = "table"', "TbMax = 3": "TbMax = 4", "TbWheres <- TWFew": "TbWheres <- TWAll"}, None, 20000),
-        ("table3", {'XMode = "hist"': 'XMode = "table"', "TbVals <- TV2": "TbVals <- TV3", "TbWheres <- TWFew": "TbWheres <- TWAll"}, None, 20000),
-        ("logged", {'XMode = "hist"': 'XMode = "logged"', "LgMax = 3": "LgMax = 4", "LgLens <- Len02": "LgLens <- Len012"}, None, 20000),
-        ("logged3", {'XMode = "hist"': 'XMode = "logged"', "LgE <- E2": "LgE <- E3", "LgV <- V01": "LgV <- V012"}, None, 20000),
-        ("design-g221", S(WIDE, DESIGN, {"MaxLen = 2": "MaxLen = 3", "Pars <- P2": "Pars <- P4"}), None, 0),
-        ("design-g222", S(WIDE, DESIGN, G222), None, 0),
-        ("design-g321", S(WIDE, DESIGN, {"Dims <- D221": "Dims <- D321", "TabFull <- Bools": "TabFull <- OnlyF", "MaxMissing = 9": "MaxMissing = 3"}), None, 0),
-        ("design-g331", S(WIDE, DESIGN, PAT, G331, {"MaxMissing = 9": "MaxMissing = 2"}), None, 0),
-        ("design-g232", S(WIDE, DESIGN, PAT, G331, {"Dims <- D331": "Dims <- D232", "MaxMissing = 9": "MaxMissing = 2"}), None, 0),
-        ("g221-calls", S(WIDE, {"MaxLen = 2": "MaxLen = 3", "Pars <- P2": "Pars <- P4"}), None, 100000),
-        ("g222-calls", S(WIDE, CB, G222), None, 50000),
-        ("g321-calls", S(WIDE, {"Dims <- D221": "Dims <- D321", "TabFull <- Bools": "TabFull <- OnlyF", "MaxMissing = 9": "MaxMissing = 2"}), None, 50000),
-        ("g231-calls", S(WIDE, {"Dims <- D221": "Dims <- D231", "TabFull <- Bools": "TabFull <- OnlyF", "MaxMissing = 9": "MaxMissing = 2", "Pars <- P2": "Pars <- P4"}), None, 50000),
-        ("g331-calls", S(WIDE, CB, PAT, G331, {"MaxMissing = 9": "MaxMissing = 2"}), None, 50000),
-        ("g232-calls", S(WIDE, CB, PAT, G331, {"Dims <- D331": "Dims <- D232", "MaxMissing = 9": "MaxMissing = 2"}), None, 50000),
+        ("table3", {'XMode = "hist"': 'XMode = "table"', "TbVals <- TV2": "TbVals <- TV3", "TbIdx <- TI": "TbIdx <- TI13", "TbWheres <- TWFew": "TbWheres <- TW3"}, None, 20000),
+        ("logged", {'XMode = "hist"': 'XMode = "logged"', "LgV <- V01": "LgV <- V012", "LgLens <- Len02": "LgLens <- Len012"}, None, 20000),
+        ("design-g221", S(WIDE, DESIGN, {"Pars <- P2": "Pars <- P4"}), None, 0),
+        ("design-g222", S(WIDE, DESIGN, PAT, G222, {"MaxMissing = 9": "MaxMissing = 3"}), None, 0),
+        ("design-g321", S(WIDE, DESIGN, PAT, {"Dims <- D221": "Dims <- D321", "TabFull <- Bools": "TabFull <- OnlyF", "MaxMissing = 9": "MaxMissing = 2", "MaxLen = 2": "MaxLen = 3"}), None, 0),
+        ("design-g331", S(WIDE, DESIGN, PAT, G331, {"MaxMissing = 9": "MaxMissing = 2", "LenPats <- LP6": "LenPats <- LP3"}), None, 0),
+        ("design-g232", S(WIDE, DESIGN, PAT, G331, {"Dims <- D331": "Dims <- D232", "MaxMissing = 9": "MaxMissing = 2", "LenPats <- LP6": "LenPats <- LP3", "Pars <- P4": "Pars <- P2"}), None, 0),
+        ("g221-calls", S(WIDE, {"Pars <- P2": "Pars <- P4"}), None, 100000),
+        ("g221-len3", S(WIDE, PAT, {"MaxLen = 2": "MaxLen = 3", "TabFull <- Bools": "TabFull <- OnlyF", "Salts = {0}": "Salts = {1}"}), None, 40000),
+        ("g222-calls", S(WIDE, CB, PAT, G222, {"MaxMissing = 9": "MaxMissing = 2"}), None, 50000),
+        ("g321-calls", S(WIDE, PAT, {"Dims <- D221": "Dims <- D321", "TabFull <- Bools": "TabFull <- OnlyF", "MaxMissing = 9": "MaxMissing = 2", "MaxLen = 2": "MaxLen = 3"}), None, 50000),
+        ("g231-calls", S(WIDE, PAT, {"Dims <- D221": "Dims <- D231", "TabFull <- Bools": "TabFull <- OnlyF", "MaxMissing = 9": "MaxMissing = 2", "MaxLen = 2": "MaxLen = 3"}), None, 50000),
+        ("g331-calls", S(WIDE, CB, PAT, G331, {"MaxMissing = 9": "MaxMissing = 2", "LenPats <- LP6": "LenPats <- LP3"}), None, 50000),
+        ("g232-calls", S(WIDE, CB, PAT, G331, {"Dims <- D331": "Dims <- D232", "MaxMissing = 9": "MaxMissing = 2", "LenPats <- LP6": "LenPats <- LP3", "Pars <- P4": "Pars <- P2"}), None, 50000),
         ("g221-objects", S(PAT, OBJ, {"MaxOps = 1": "MaxOps = 3", "LenPats <- LP6": "LenPats <- LP3", "MaxMissing = 9": "MaxMissing = 1", "InitExps <- Exp1": "InitExps <- Exp01", "Pars <- P2": "Pars <- P1"}), None, 50000),
         ("g221-chain2", S(PAT, {"MaxOps = 1": "MaxOps = 2", "LenPats <- LP6": "LenPats <- LP3", "TabFull <- Bools": "TabFull <- OnlyF", "RecvAll = TRUE": "RecvAll = FALSE"}), None, 50000),
         ("chains-sim", S(PAT, WIDE, {"Dims <- D221": "Dims <- DAll", "MaxOps = 1": "MaxOps = 5", "MaxLen = 2": "MaxLen = 4", "Pars <- P2": "Pars <- P4",
                                      "MaxMissing = 9": "MaxMissing = 4", "XOps <- CallsX": "XOps <- AllX", "InitExps <- Exp1": "InitExps <- Exp012",
-                                     "Salts = {0}": "Salts = {0, 1, 2}"}), dict(num=12), 20000),
+                                     "Salts = {0}": "Salts = {0, 1, 2}"}), dict(num=10), 20000),
     ]
 
 
@@ -632,15 +643,9 @@ def run(ctx):
             fld = "tb" if name.startswith("table") else "lg"
             cases = sorted((j for j in r.json if isinstance(j, dict) and fld in j), key=lambda j: json.dumps(j, sort_keys=True))
             if len(cases) < least: raise RuntimeError("ResultMore %s produced only %d cases" % (name, len(cases)))
-            fn = table_case if fld == "tb" else logged_case
-            nv = 3 if fld == "tb" else 16
-            for j in cases:
-                key = json.dumps(j[fld], sort_keys=True)
-                ctx.case(fld + key)
-                hk = zlib.crc32(key.encode())
-                for v in ((hk % nv, (hk // nv + 1 + hk % nv) % nv) if ctx.quick else range(nv)):
-                    bad = fn(j, v)
-                    if bad: ctx.violation(bad[0], bad[1], j); break
+            for j in cases: ctx.case(fld + json.dumps(j[fld], sort_keys=True))
+            for j, bad in zip(cases, pool.imap(_tjob, [(fld, j, ctx.quick) for j in cases], chunksize=200)):
+                if bad: ctx.violation(bad[0], bad[1], j)
             ops[fld] = ops.get(fld, 0) + len(cases)
             ctx.sample(cases[len(cases) // 2][fld], limit=4); total += len(cases)
             ctx.exhaustive = True if ctx.exhaustive is None else ctx.exhaustive
